@@ -25,6 +25,6 @@ CONSTANTS
     BgRespectsPrio = TRUE
 SPECIFICATION Spec
 VIEW core
-INVARIANTS TypeOK MountedIffInMap MountedLayerAlive NoUnverifiedMountUnlessAllowed NoUnverifiedInMap DoDoneBalanced
-PROPERTIES FailedMountLeavesNothing UnmountReleasesLayer CheckReachesOwnLayer BackgroundFetchOnlyAfterMountReturns
+INVARIANTS TypeOK MountedIffInMap MountedLayerAlive NoUnverifiedMountUnlessAllowed NoUnverifiedInMap DoDoneBalanced BackgroundFetchOnlyAfterMountReturns
+PROPERTIES FailedMountLeavesNothing UnmountReleasesLayer CheckReachesOwnLayer BackgroundFetchStartsIdle
 CHECK_DEADLOCK FALSE
